@@ -417,6 +417,27 @@ func (m *MdnsManager) removeMdnsEntry(ski string) {
 	delete(m.entries, ski)
 }
 
+// returns the addresses without duplicates, the first occurrence is kept
+func uniqueAddresses(addresses []net.IP) []net.IP {
+	var result []net.IP
+	for _, address := range addresses {
+		isNewElement := true
+
+		for _, item := range result {
+			if item.String() == address.String() {
+				isNewElement = false
+				break
+			}
+		}
+
+		if isNewElement {
+			result = append(result, address)
+		}
+	}
+
+	return result
+}
+
 // process an mDNS entry and manage mDNS entries map
 func (m *MdnsManager) processMdnsEntry(elements map[string]string, name, host string, addresses []net.IP, port int, remove bool) {
 	// check for mandatory text elements
@@ -544,7 +565,7 @@ func (m *MdnsManager) processMdnsEntry(elements map[string]string, name, host st
 			Categories: categories,
 			Host:       host,
 			Port:       port,
-			Addresses:  addresses,
+			Addresses:  uniqueAddresses(addresses),
 		}
 		m.setMdnsEntry(ski, newEntry)
 
